@@ -18,6 +18,7 @@ static bool refused(const std::string &api, long rc) {
 static int pick_desc(World &W, const Slot &s, const std::string &dm, int var, bool *ok) {
     *ok = true;
     if (dm == "live") { if (!s.live) *ok = false; return s.desc; }
+    if (dm == "last") { if (s.live || s.desc <= 0) *ok = false; return s.desc; }   // the descriptor this slot had before it was destroyed
     if (dm == "dead") {
         if (W.dead_descs.empty()) { *ok = false; return -1; }
         auto it = W.dead_descs.begin(); std::advance(it, (size_t) var % W.dead_descs.size());
@@ -54,7 +55,7 @@ static void op_badcall(World &W, const Json &op) {
     }
     int n = (int) t->orig.size(), k = t->cfg.k > 0 ? t->cfg.k : 1;
     cur().api = api;
-    W.fault(desc_bad ? (dm == "dead" ? "USE_DEAD" : "BAD_DESC") : "BADCALL");
+    W.fault(desc_bad ? (dm == "dead" || dm == "last" ? "USE_DEAD" : "BAD_DESC") : "BADCALL");
     size_t live0 = own::live();
     long rc = 0; bool judged = desc_bad || mask != 0; bool noop_ok = false;
     std::vector<char *> fr;
@@ -132,9 +133,9 @@ static void op_badcall(World &W, const Json &op) {
     } else { W.probe("badcall.unknown-api"); thread_arena().release_all(); return; }
     W.trace.add("badcall.rc", rc);
     if (judged) {
-        const char *what = desc_bad ? (dm == "dead" ? "dead-descriptor" : "unknown-descriptor") : "invalid-argument";
+        const char *what = desc_bad ? (dm == "dead" || dm == "last" ? "dead-descriptor" : "unknown-descriptor") : "invalid-argument";
         if (noop_ok) W.probe("badcall.cleanup-noop");
-        else if (!refused(api, rc)) W.viol(desc_bad ? "C13 C14" : "C13", api + "/" + what + "-accepted", api + " with " + what + " (mask " + std::to_string(mask) + ", variant " + std::to_string(var) + ") returned " + std::to_string(rc));
+        else if (!refused(api, rc)) W.viol(desc_bad ? "C13 C14 C18" : "C13", api + "/" + what + "-accepted", api + " with " + what + " (mask " + std::to_string(mask) + ", variant " + std::to_string(var) + ") returned " + std::to_string(rc));
         else W.probe(std::string("badcall.refused.") + what);
         if (leaked(W, live0)) W.viol("C13 C16", api + "/refused-call-retained-memory", api + " refused the call but kept " + std::to_string((long) own::live() - (long) live0) + " block(s)");
     }
